@@ -67,7 +67,7 @@ class Verifier(Engine):
         for txt in self.c.abstract_stmts:
             if txt not in self._abstract_used:
                 raise SourceError(f"{c.qualname}: abstracted statement no longer present: {txt[:80]}")
-        if n_ret == 0:
+        if n_ret == 0 and not c.raises:
             raise GenerationError(f"{c.qualname}: no path reaches a return")
         return self.obligations
 
@@ -677,7 +677,7 @@ class Verifier(Engine):
                             if full[:n] in self.field_types and not isinstance(self.field_types[full[:n]], TObj):
                                 paths.add(full[:n])
                                 return
-                        raise GenerationError(f"loop writes undeclared path {'.'.join(full)}")
+                        return  # undeclared: executing the store raises a generation error unless abstracted
                     names.add(root.id)
 
         for n in ast.walk(ast.Module(body=list(body), type_ignores=[])):
